@@ -309,6 +309,10 @@ func init() {
 	add("C14", ruleR14_8)
 	add("C16", ruleR16_10, ruleR16_11, ruleR16_12)
 	add("C14", ruleR16_12)
+	add("C19", ruleR19_8)
+	add("C03", ruleR19_8)
+	add("C16", ruleR09_11)
+	add("C08", ruleR09_11)
 	add("C04", ruleR09_4)
 	add("C03", ruleR01_5)
 	add("C06", ruleR03_3, ruleR12_3)
